@@ -5,6 +5,12 @@ R1  sync and async form iterators (and the BodyPart accessor pairs) are
 R2  thresholds in normal form: buffered part size, part count, header block.
 R3  nothing but the multipart parse error (a 400) escapes the iterators and
     the BodyPart accessors; DelimiterError is mapped at every stream call.
+    A mapping read by a literal key counts as guarded (no KeyError) under an
+    enclosing `except KeyError` (EAFP) or when a membership test of the same
+    key in the same mapping dominates it - F arm of `k not in d`, T arm of
+    `k in d`, earlier operand of an `and` chain / conditional expression - with
+    nothing in between that can remove the key (c13_helpers
+    MultipartEscape._membership_guarded; k2-c13-1).
 R4  delimiter evolution: `--boundary` for the prologue, CRLF + `--boundary`
     from then on, and the same value is given to `delimit`.
 R5-R7, R9 shared reader rules of C14 (delimiter never split / searched behind
